@@ -16,6 +16,8 @@ var Families = map[string][]string{
 	"C11": {"dhcp"},
 	"C12": {"dhcp"},
 	"C18": {"lease"},
+	"C19": {"ping"},
+	"C13": {"arpspoof"},
 }
 
 // Generate builds the scenario for (property, family, seed).
@@ -27,6 +29,10 @@ func Generate(prop, family string, seed uint64, tier string) Scenario {
 		return genDHCP(prop, seed, tier)
 	case "lease":
 		return genDHCP("C18", seed, tier)
+	case "ping":
+		return genPing(prop, seed, tier)
+	case "arpspoof":
+		return genARPSpoof(prop, seed, tier)
 	}
 	panic("unknown family " + family)
 }
@@ -58,6 +64,10 @@ func Driver(sc Scenario, trace bool) func() {
 			runDHCP(e)
 		case "lease":
 			runLease(e)
+		case "ping":
+			runPing(e)
+		case "arpspoof":
+			runARPSpoof(e)
 		default:
 			e.violate("infra.setup", "family", fmt.Sprintf("unknown family %q", sc.Family))
 		}
